@@ -217,8 +217,32 @@ def r6(ctx):
     # callers: both branches of group_files deduplicate
     rsf = ctx.need_body(rule, 'group::remove_same_files')
     if rsf is not None:
-        ok = any(lib.body(p).calls(r'^group::deduplicate$') for p in [rsf.path] + lib.closures_of(rsf.path))
-        ctx.check(ok, rule, rsf.path, rsf.where(), 'remove_same_files deduplicates every size group', 'remove_same_files does not call deduplicate')
+        holders = [lib.body(p) for p in [rsf.path] + lib.closures_of(rsf.path) if lib.body(p).calls(r'^group::deduplicate$')]
+        ok = bool(holders)
+        why = 'remove_same_files does not call deduplicate'
+        if ok:
+            hb = holders[0]
+            dc = hb.calls(r'^group::deduplicate$')[0]
+            okp, off = hb.must_pass(0, lambda x: x == dc.bb)
+            if not okp:
+                ok = False
+                why = ('deduplicate() is skipped on some path through %s (return at bb%s): repeated entries of one path survive whenever that condition misjudges the inputs '
+                       '(e.g. a nested root given before its ancestor) and a file is counted as several replicas of itself' % (hb.path, off))
+            elif hb.kind == 'closure':
+                # the closure must be applied to every group: handed to update()/for_each()/map() on the whole group vector, unconditionally
+                cr = closure_creation(lib, hb.path)
+                par = lib.body(cr[0].path) if cr else None
+                ad = [c for c in (par.calls(r'::(update|for_each|map|inspect)$') if par else []) if op_local(c.args[-1]) in forward_locals(par, cr[2]['p'][0])]
+                okp2 = bool(ad) and all(par.must_pass(0, lambda x, a=a: x == a.bb)[0] for a in ad)
+                if not okp2:
+                    ok = False
+                    why = 'the de-duplicating closure is not applied to the groups on every path'
+                else:
+                    gsl = backslice(par, [ad[0].args[0]])
+                    if not any(par.local_name(p_) == 'groups' for p_ in gsl.params):
+                        ok = False
+                        why = 'the de-duplication does not run over the `groups` argument'
+        ctx.check(ok, rule, rsf.path, rsf.where(), 'remove_same_files deduplicates every size group unconditionally', why)
 
 
 def r78(ctx):
